@@ -15,10 +15,11 @@ func NewEnv() *Env {
 	return &Env{nil, map[string]*Type{}, map[string]interface{}{}}
 }
 
+// Inherit returns an environment with e's bindings and the given parent.
+// e itself is left untouched, so it can be used for further compilations.
 func (e *Env) Inherit(parent *Env) *Env {
 	util.Assert(e.parent == nil, "env.parent != nil")
-	e.parent = parent
-	return e
+	return &Env{parent, e.ctx, e.fnTbl}
 }
 
 func (e *Env) Derive() *Env {
